@@ -12,18 +12,22 @@ let vfloat (v : value) = match v with
 let vutxo (v : value) = match v with
   | VT [txid; vout; amt; spk] | VL [txid; vout; amt; spk] -> Model.c16_mk_utxo (vb txid) (vi vout) (vfloat amt) (vb spk)
   | _ -> raise (Bad "expected utxo")
-(* bits.script.scriptpubkey on the addresses of this scenario: the table computed by the harness' independent decoder *)
-let vtable (v : value) : Model.byte list -> Model.byte list Model.result =
+(* bits.script.scriptpubkey and (bits.is_point(x) or bits.is_addr(x)) on the addresses of this scenario: the table computed by
+   the harness' independent decoder; entries (address, script | None, is_key_or_address) *)
+let vtable (v : value) : (Model.byte list -> Model.byte list Model.result) * (Model.byte list -> bool) =
   let tbl = List.map (fun e -> match e with
-      | VT [k; s] | VL [k; s] -> (vb k, vopt vb s)
+      | VT [k; s; b] | VL [k; s; b] -> (vb k, (vopt vb s, vbool b))
       | _ -> raise (Bad "expected table entry")) (vl v) in
-  fun addr -> match List.assoc_opt addr tbl with
-    | Some (Some s) -> Model.Ok s
-    | _ -> Model.Err Model.ValueE
+  ((fun addr -> match List.assoc_opt addr tbl with
+     | Some (Some s, _) -> Model.Ok s
+     | _ -> Model.Err Model.ValueE),
+   (fun addr -> match List.assoc_opt addr tbl with
+      | Some (_, b) -> b
+      | None -> false))
 let () =
   register "c16_send" (function [p; a; n; g; sender; recip; change; keys; flag; frac; fee; ver; lt; total; unspents; draws; table] ->
       of_result (fun x -> VB x)
-        (Model.c16_send (vi p) (vi a) (vi n) (vpoint g) sha256 ripemd160 (vtable table)
+        (Model.c16_send (vi p) (vi a) (vi n) (vpoint g) sha256 ripemd160 (fst (vtable table)) (snd (vtable table))
            (vb sender) (vb recip) (vopt vb change) (List.map vb (vl keys)) (vopt vi flag) (vfloat frac)
            (vi fee) (vi ver) (vi lt) (vfloat total) (List.map vutxo (vl unspents)) (vzlist draws))
                         | _ -> raise (Bad "arity"));
